@@ -64,8 +64,10 @@ func Evolve(s *Schema, r *prng.Rand) *Evolved {
 				om.Fields[i].Deprecated = true
 				changed = true
 			}
-			if om.Fields[i].Deprecated && m.Fields[i].Deprecated {
-				// a field deprecated on both sides is never sent; make the sender send it
+			if om.Fields[i].Deprecated && m.Fields[i].Deprecated && r.Bool() {
+				// a field deprecated on both sides is never sent; half of the time the newer
+				// sender sends it again (the other half it stays deprecated on both sides, so
+				// that senders which must SKIP a populated field stay in these populations)
 				m.Fields[i].Deprecated = false
 				changed = true
 			}
